@@ -19,6 +19,11 @@ import Nstd.Future.Handshake
                           `stepFrame` (repaired code = the current source) are the translated bodies.
     constructors          `queue_ctor_is_ring_init`, `queue_ctor_capacity_upto_1024` (bounded: see OPEN), `pool_ctor_is_mkPool`,
                           `lazy_pool_is_default_ctor`.
+    worker loop           `worker_loop_is_translated` : every decision / access frame of `ThreadContext::proc` (`wPop1`, `wChk1`, `wChk2`,
+                          `wDispatch`, `wAdd`, `wTerm`) is the translated micro-step with the same number (pool equal, pushed frames equal
+                          after expanding the model's call-site frames `wPop2`, `wDeq`: `worker_call_sites`).
+    run(), first half     `run_push_loop_is_translated` : the push loop with back-pressure, the increment of `_pushedJobs` and the read of
+                          `_processedJobs` (`runStart … runRdProc`), likewise (`run_call_sites`); a helper the loop is moved into is inlined.
     run()                 `run_decision_is_translated` : the branch the model takes after the two counter reads is the decision TREE the
                           translator obtains from the current source by symbolic execution (counter arithmetic with the source's
                           `usize`/`ssize` wrap-around, every condition, early returns or nested ifs alike), for all counters < 2^62;
@@ -229,7 +234,7 @@ def fsCallee (fs : Nat) : Callee → List Frame
   | .sigSet => [.sSetLock fs]
   | .sigReset => [.sRstLock fs]
   | .sigWait => [.sWaitLock fs]
-  | .futJoin => []
+  | _ => []
 
 def fsFrames (fs : Nat) (entryOfPc : Nat → List Frame) {L R : Type} : GStep L R → List Frame
   | .ret _ _ => []
@@ -291,6 +296,158 @@ theorem pool_ctor_is_mkPool (q mn mx : Nat) : mkPool q mn mx = poolCtor mn mx q 
     harness reports to the library; request option `ncpu`) -/
 theorem lazy_pool_is_default_ctor : mkPool 0x100 0 4 = poolCtorDefault 4 := by
   simp only [poolCtorDefault, pool_ctor_is_mkPool]
+
+/-! ## `ThreadContext::proc` — the worker loop -/
+
+/-- frames of the model that only push a call and its return address (no access, no decision): expanding them gives the translator's
+    convention "consecutive calls are one entry" (`stepFrame` of these frames does exactly this push: `worker_call_sites`) -/
+def expandW : Frame → List Frame
+  | .wPop1 => [.ring .popRead, .wChk1]
+  | .wPop2 => [.ring .popRead, .wChk2]
+  | .wDeq => [.fSet 1, .wDispatch]
+  | f => [f]
+
+/-- first frame of a callee of the worker loop (`c` = the call record of the popped job) -/
+def calleeW (retJob : Job) : Callee → List Frame
+  | .pop => [.ring .popRead]
+  | .fsSetEnq => [.fSet 0]
+  | .fsResetEnq => [.fRst 0]
+  | .fsWaitEnq => [.fWait 0]
+  | .fsSetDeq => [.fSet 1]
+  | .jobProc => (match retJob with | some c => [.pCall c] | none => [])
+  | _ => []
+
+/-- the frame of a return address inside the worker loop -/
+def workerPc : Nat → List Frame
+  | 1 => [.wChk1]
+  | 2 => [.wChk2]
+  | 3 => [.wDispatch]
+  | 4 => [.wAdd]
+  | 5 => [.wTerm]
+  | _ => []
+
+/-- frames a translated step of the worker loop leaves on the stack (`return` = the thread function ends: `tExit`) -/
+def workerFrames (retJob : Job) {L R : Type} : GStep L R → List Frame
+  | .ret _ _ => [.tExit]
+  | .goto n _ => workerPc n
+  | .call cs nx _ => cs.flatMap (calleeW retJob) ++ (match nx with | some n => workerPc n | none => [.tExit])
+  | .stuck => []
+
+theorem worker_call_sites (s : State) (t : Tid) (th : Thread) :
+    (stepFrame s t th .wPop1).1 = setThread s t (th.cont (expandW .wPop1)) ∧
+    (stepFrame s t th .wPop2).1 = setThread s t (th.cont (expandW .wPop2)) ∧
+    (stepFrame s t th .wDeq).1 = setThread s t (th.cont (expandW .wDeq)) := by
+  simp [stepFrame, expandW]
+
+/-- **`worker_loop_is_translated`** — every decision and access frame of the worker loop (`wPop1` = entry, `wChk1`, `wChk2`, `wDispatch`,
+    `wAdd`, `wTerm`) is the translated micro-step with the same number: same pool afterwards, and the frames it pushes are, after
+    expanding the model's call-site frames, the calls and the return address of the translated step. -/
+theorem worker_loop_is_translated (s : State) (t : Tid) (th : Thread) (p : Pool) (hp : s.pool = some p) (hrep : s.cfg.repaired = true)
+    (L : WorkerL) :
+    -- entry: `while (!queue.pop(job))`
+    (expandW .wPop1 = workerFrames th.retJob (workerStep t th.retB th.retJob p 0 L).2) ∧
+    -- the two tests of pop's result
+    ((stepFrame s t th .wChk1).1.threads t =
+        some (th.cont (if th.retB then [.wDeq] else [.fRst 0, .wPop2])) ∧
+      (if th.retB then [Frame.wDeq] else [.fRst 0, .wPop2]).flatMap expandW =
+        workerFrames th.retJob (workerStep t th.retB th.retJob p 1 L).2) ∧
+    ((stepFrame s t th .wChk2).1.threads t =
+        some (th.cont (if th.retB then [.wDeq] else [.fWait 0, .wPop1])) ∧
+      (if th.retB then [Frame.wDeq] else [.fWait 0, .wPop1]).flatMap expandW =
+        workerFrames th.retJob (workerStep t th.retB th.retJob p 2 L).2) ∧
+    -- `if (job.proc)`: run the call and count it, or pass the wake-up on and leave
+    ((stepFrame s t th .wDispatch).1.threads t =
+        some (th.cont (workerFrames th.retJob (workerStep t th.retB th.retJob p 3 L).2)) ∧
+      (stepFrame s t th .wDispatch).1.pool = some (workerStep t th.retB th.retJob p 3 L).1) ∧
+    -- `Atomic::increment(_pool->_processedJobs)` and back to the head of the loop
+    ((stepFrame s t th .wAdd).1.pool = some (workerStep t th.retB th.retJob p 4 L).1 ∧
+      (stepFrame s t th .wAdd).1.threads t = some (th.cont [.wPop1]) ∧
+      expandW .wPop1 = workerFrames th.retJob (workerStep t th.retB th.retJob p 4 L).2) ∧
+    -- `_terminated = true; return 0;`
+    ((stepFrame s t th .wTerm).1.pool = some (workerStep t th.retB th.retJob p 5 L).1 ∧
+      (stepFrame s t th .wTerm).1.threads t = some (th.cont (workerFrames th.retJob (workerStep t th.retB th.retJob p 5 L).2))) := by
+  refine ⟨?_, ⟨?_, ?_⟩, ⟨?_, ?_⟩, ⟨?_, ?_⟩, ⟨?_, ?_, ?_⟩, ⟨?_, ?_⟩⟩
+  · simp [expandW, workerFrames, workerStep, calleeW, workerPc]
+  · cases h : th.retB <;> simp [stepFrame, h, setThread, upd]
+  · cases h : th.retB <;> simp [h, expandW, workerFrames, workerStep, calleeW, workerPc]
+  · cases h : th.retB <;> simp [stepFrame, h, setThread, upd]
+  · cases h : th.retB <;> simp [h, expandW, workerFrames, workerStep, calleeW, workerPc]
+  · cases h : th.retJob <;> simp [stepFrame, h, hrep, setThread, upd, workerFrames, workerStep, calleeW, workerPc]
+  · cases h : th.retJob <;> simp [stepFrame, h, hp, setThread, upd, workerStep]
+  · simp [stepFrame, hp, setThread, setPool, upd, workerStep]
+  · simp [stepFrame, hp, setThread, setPool, upd]
+  · simp [expandW, workerFrames, workerStep, calleeW, workerPc]
+  · simp [stepFrame, hp, setThread, setPool, upd, workerStep]
+  · simp [stepFrame, hp, setThread, setPool, upd, workerFrames, workerStep]
+
+/-! ## `ThreadPool::run` — the push loop with back-pressure and the three counter accesses -/
+
+/-- call-site frames of the push loop (they only push a call and its return address: `run_call_sites`) -/
+def expandR : Frame → List Frame
+  | .runStart j => [.ring (.pushRead j), .runChk1 j]
+  | .runPush2 j => [.ring (.pushRead j), .runChk2 j]
+  | .runSet => [.fSet 0, .runAdd]
+  | f => [f]
+
+def calleeR (j : Job) : Callee → List Frame
+  | .push => [.ring (.pushRead j)]
+  | .fsSetEnq => [.fSet 0]
+  | .fsResetDeq => [.fRst 1]
+  | .fsWaitDeq => [.fWait 1]
+  | _ => []
+
+/-- the frame of a return address / shared access inside the translated prefix of `run()` (`pj` = the value the increment returned,
+    `busy` = the busy count computed at the second read: the locals the model carries in its frames) -/
+def runPc (j : Job) (pj : Nat) (busy : Int) : Nat → List Frame
+  | 1 => [.runChk1 j]
+  | 2 => [.runChk2 j]
+  | 3 => [.runAdd]
+  | 4 => [.runRdProc pj]
+  | 5 => [.runRdTc busy]
+  | _ => []
+
+def runFrames (j : Job) (pj : Nat) (busy : Int) {L R : Type} : GStep L R → List Frame
+  | .ret _ _ => []
+  | .goto n _ => runPc j pj busy n
+  | .call cs nx _ => cs.flatMap (calleeR j) ++ (match nx with | some n => runPc j pj busy n | none => [])
+  | .stuck => []
+
+theorem run_call_sites (s : State) (t : Tid) (th : Thread) (j : Job) :
+    (stepFrame s t th (.runStart j)).1 = setThread s t (th.cont (expandR (.runStart j))) ∧
+    (stepFrame s t th (.runPush2 j)).1 = setThread s t (th.cont (expandR (.runPush2 j))) ∧
+    (stepFrame s t th .runSet).1 = setThread s t (th.cont (expandR .runSet)) := by
+  simp [stepFrame, expandR]
+
+/-- **`run_push_loop_is_translated`** — the frames of the first half of `ThreadPool::run` (`runStart` = entry, `runChk1`, `runChk2`: the
+    push loop with back-pressure; `runAdd`, `runRdProc`: the increment of `_pushedJobs` and the read of `_processedJobs`) are the
+    translated micro-steps with the same numbers: same pool afterwards, and the frames pushed are (after expanding the model's call-site
+    frames) the calls and the return address of the translated step.  (The third read, `_threadCount`, and the decision after it:
+    `run_decision_is_translated`.) -/
+theorem run_push_loop_is_translated (s : State) (t : Tid) (th : Thread) (p : Pool) (hp : s.pool = some p) (j : Job) (pj : Nat)
+    (L : RunPrefixL) :
+    (expandR (.runStart j) = runFrames j pj 0 (runPrefixStep th.retB p 0 L).2) ∧
+    ((stepFrame s t th (.runChk1 j)).1.threads t = some (th.cont (if th.retB then [.runSet] else [.fRst 1, .runPush2 j])) ∧
+      (if th.retB then [Frame.runSet] else [.fRst 1, .runPush2 j]).flatMap expandR = runFrames j pj 0 (runPrefixStep th.retB p 1 L).2) ∧
+    ((stepFrame s t th (.runChk2 j)).1.threads t = some (th.cont (if th.retB then [.runSet] else [.fWait 1, .runStart j])) ∧
+      (if th.retB then [Frame.runSet] else [.fWait 1, .runStart j]).flatMap expandR = runFrames j pj 0 (runPrefixStep th.retB p 2 L).2) ∧
+    ((stepFrame s t th .runAdd).1.pool = some (runPrefixStep th.retB p 3 L).1 ∧
+      (stepFrame s t th .runAdd).1.threads t = some (th.cont (runFrames j (p.pushed + 1) 0 (runPrefixStep th.retB p 3 L).2))) ∧
+    ((stepFrame s t th (.runRdProc pj)).1.pool = some (runPrefixStep th.retB p 4 L).1 ∧
+      (stepFrame s t th (.runRdProc pj)).1.threads t =
+        some (th.cont (runFrames j pj ((pj : Int) - p.processed) (runPrefixStep th.retB p 4 L).2))) ∧
+    (∃ L', runPrefixStep th.retB p 5 L = (p, .ret () L')) := by
+  refine ⟨?_, ⟨?_, ?_⟩, ⟨?_, ?_⟩, ⟨?_, ?_⟩, ⟨?_, ?_⟩, ?_⟩
+  · simp [expandR, runFrames, runPrefixStep, calleeR, runPc]
+  · cases h : th.retB <;> simp [stepFrame, h, setThread, upd]
+  · cases h : th.retB <;> simp [h, expandR, runFrames, runPrefixStep, calleeR, runPc]
+  · cases h : th.retB <;> simp [stepFrame, h, setThread, upd]
+  · cases h : th.retB <;> simp [h, expandR, runFrames, runPrefixStep, calleeR, runPc]
+  · simp [stepFrame, hp, setThread, setPool, upd, runPrefixStep]
+  · simp [stepFrame, hp, setThread, setPool, upd, runPrefixStep, runFrames, runPc]
+  · simp [stepFrame, hp, setThread, setPool, upd, runPrefixStep]
+  · simp [stepFrame, hp, setThread, setPool, upd, runPrefixStep, runFrames, runPc]
+  · simp only [runPrefixStep]
+    exact ⟨_, rfl⟩
 
 /-! ## `ThreadPool::run`: the worker-count decision -/
 
@@ -369,18 +526,19 @@ theorem run_counters_are_translated (s : State) (t : Tid) (th : Thread) (pj : Na
 
 /-! ## Future.hpp: `Future<void>` members, `Future<void>::set`, `Future<A>` conversion / destructor, the two `proc` templates -/
 
-/-- first frame of a modelled callee, for the Signal / the object of future `f` -/
-def calleeFrame (f : Nat) : Callee → Frame
-  | .sigSet => .sSetLock (f + 2)
-  | .sigReset => .sRstLock (f + 2)
-  | .sigWait => .sWaitLock (f + 2)
-  | .futJoin => .join f
+/-- first frame of a modelled callee, for the Signal / the object of future `f` (the callees of the pool code do not occur here) -/
+def calleeFrame (f : Nat) : Callee → List Frame
+  | .sigSet => [.sSetLock (f + 2)]
+  | .sigReset => [.sRstLock (f + 2)]
+  | .sigWait => [.sWaitLock (f + 2)]
+  | .futJoin => [.join f]
+  | _ => []
 
 /-- frames a translated step of a member of future `f` leaves on the stack (`retOfPc` = the frame of a return address inside the body) -/
 def futFrames (f : Nat) (retOfPc : Nat → List Frame) {L R : Type} : GStep L R → List Frame
   | .ret _ _ => []
   | .goto n _ => retOfPc n
-  | .call fs nx _ => fs.map (calleeFrame f) ++ (match nx with | some n => retOfPc n | none => [])
+  | .call fs nx _ => fs.flatMap (calleeFrame f) ++ (match nx with | some n => retOfPc n | none => [])
   | .stuck => []
 
 /-- value returned by a translated step -/
